@@ -86,7 +86,7 @@ def pure_names_ids_ob(v):
     if v.bool("ids"):
         root, objs, secs, props = c08.build_document(v, "doc", vary_names=False, full=True)
     else:
-        root, objs, secs, props = c08.build_document(v, "doc", vary_ids=False)
+        root, objs, secs, props = c08.build_document(v, "doc", vary_ids=False, full=False)
     # report() lower-cases the repr of every object: on symbolic names that costs seconds per path; it is exercised in pure_properties
     purity(v, root, objs, how=v.choice("how", 2), with_report=False)
 
